@@ -44,7 +44,7 @@ def opts_random(rng):
 
 # ------------------------------------------------------------------ running
 
-def build():
+def build(race=False):
     d = C.scratch("otapbin.")
     mod = os.path.join(d, "mod")
     shutil.copytree(HARNESS, mod)
@@ -52,7 +52,7 @@ def build():
     open(os.path.join(mod, "go.mod"), "w").write(gomod)
     shutil.copy(os.path.join(C.REPO, "go.sum"), os.path.join(mod, "go.sum"))
     binp = os.path.join(d, "otap.test")
-    rc, out = C.sh(["go", "test", "-c", "-o", binp, "."], cwd=mod, env=C.GOENV, timeout=900)
+    rc, out = C.sh(["go", "test", "-c", "-o", binp] + (["-race"] if race else []) + ["."], cwd=mod, env=C.GOENV, timeout=1200)
     if rc != 0:
         raise C.Inconclusive("otap harness build failed:\n" + out[-4000:])
     return binp
@@ -73,7 +73,7 @@ def run_obs(trace, timeout=1800):
         raise C.Inconclusive("OtapObs did not finish:\n" + r["out"][-3000:])
     return int(m.group(1)), json.loads(m.group(2).encode().decode("unicode_escape")), r
 
-def execute(plan, shards=8, timeout=1500, binp=None):
+def execute(plan, shards=8, timeout=1500, binp=None, test="TestPlan", extra_env=None):
     """Runs the plan in `shards` processes and judges every shard with OtapObs (TLC) in parallel.
     Returns (violations [tr, prop, clause, seq], events per stream {tr: [events]}, total events, notes)."""
     binp = binp or build()
@@ -84,8 +84,13 @@ def execute(plan, shards=8, timeout=1500, binp=None):
     outs = [os.path.join(d, "trace%d.ndjson" % s) for s in range(shards)]
     notes = []
     def one(s):
-        rc, out = run_shard(binp, planp, s, shards, outs[s], timeout)
-        if rc != 0:
+        rc, out = run_shard(binp, planp, s, shards, outs[s], timeout, test=test, extra_env=extra_env)
+        if rc != 0 and "DATA RACE" in out:
+            notes.append({"shard": s, "kind": "race", "output": out[out.find("WARNING: DATA RACE"):][:3000]})
+            with open(outs[s], "a") as fh:
+                fh.write(json.dumps({"tr": 0, "seq": 10 ** 9 + s, "ev": "Conc", "k": -1, "sig": "", "oc": "race", "err": "", "n": 0,
+                                     "in": [], "out": [], "flag": 1, "bid": 0, "pl": [], "obs": [], "x": "", "a": 0, "b": 0, "l": []}) + "\n")
+        elif rc != 0:
             return ("harness", s, out[-3000:])
         if not os.path.exists(outs[s]) or os.path.getsize(outs[s]) == 0:
             return ("empty", s, "")
@@ -146,6 +151,12 @@ def summarize(outs):
                     s["dec"][e["oc"]] = s["dec"].get(e["oc"], 0) + 1
                     if e["l"]:
                         s["faults"] += 1
+                elif e["ev"] == "Conc":
+                    if e["k"] >= 0:
+                        s["batches"] += 1
+                        s["items"] += e["n"]
+                        s["dec"][e["oc"]] = s["dec"].get(e["oc"], 0) + 1
+                        s.setdefault("conc", []).append((e["oc"], e["n"]))
                 elif e["ev"] == "Ladder":
                     key = e["oc"] if e["oc"] == "ok" else ("refused" if e["flag"] else e["oc"])
                     s["ladder"][key] = s["ladder"].get(key, 0) + 1
